@@ -81,37 +81,6 @@ def _has_own_break(stmt):
     return False
 
 
-def tainted_names(fi, seeds):
-    """Names whose value may derive from the seed names (flow-insensitive)."""
-    t = set(seeds)
-    changed = True
-    while changed:
-        changed = False
-        for n in walk_no_nested(fi.node):
-            tgt, val = None, None
-            if isinstance(n, ast.Assign):
-                tgt, val = n.targets, n.value
-            elif isinstance(n, (ast.For, ast.AsyncFor)):
-                tgt, val = [n.target], n.iter
-            elif isinstance(n, ast.comprehension):
-                tgt, val = [n.target], n.iter
-            if tgt is None:
-                continue
-            if isinstance(val, ast.Call):
-                fv = val.func
-                while isinstance(fv, (ast.Attribute, ast.Subscript)):
-                    fv = fv.value
-                if not (isinstance(fv, ast.Name) and fv.id in t) and call_name(val) not in ("iter", "next", "enumerate", "zip", "reversed", "sorted", "list", "tuple"):
-                    continue  # result of a call on something else: a fresh object
-            if names_in(val) & t:
-                for tt in tgt:
-                    for nm in ast.walk(tt):
-                        if isinstance(nm, ast.Name) and isinstance(nm.ctx, ast.Store) and nm.id not in t:
-                            t.add(nm.id)
-                            changed = True
-    return t
-
-
 def dict_mutated_while_iterated(fi):
     """for-loops iterating a container (directly or via .keys/.items/.values)
     whose body adds/deletes keys of that same container."""
